@@ -131,6 +131,12 @@ func (o *outcome) label(format string, args ...any) {
 	o.labels = append(o.labels, fmt.Sprintf(format, args...))
 }
 
+// preciseFamilies: fault families whose offending node is beyond doubt (see evalMutant).
+var preciseFamilies = map[string]bool{
+	"retype": true, "wrong-kind": true, "empty": true, "escape": true,
+	"num-integer-keyword": true, "num-keyword": true, "num-other": true,
+}
+
 // unattributedIsViolation: positions that no acceptance rule explains are
 // violations when the unmutated base passes (the fault is then the only cause).
 const unattributedIsViolation = true
@@ -307,6 +313,20 @@ func evalMutant(c mutCase) (o outcome) {
 			lab := attribute(a, ixJ, l)
 			o.label("position:%s", lab)
 			o.label("precision:%s:%s", a.Label, lab)
+			// Faults that change one value in place (another kind, "", a bad
+			// number, a bad escape in a key) leave no room for doubt about the
+			// offending node: the position must be that entry (key or value) or
+			// lie inside it, not at an ancestor or a neighbour.
+			if preciseFamilies[a.Label] && lab != "at-fault" && lab != "inside-fault" && lab != "unattributed" && lab != "not-at-a-node-start" {
+				cands := ixJ.at(l.Line, l.Col)
+				where := "?"
+				if len(cands) > 0 {
+					where = describePath(a.Tree, cands[0].Path)
+				}
+				o.finding = vk.F("position-outside-faulted-node", "fault %s(%s) at %s changes this one value in place; the diagnostic points at %d:%d = %s (%s), not at or inside the faulted entry: %s",
+					c.Fault, c.Arg, describePath(a.Tree, a.Fault), l.Line, l.Col, where, lab, clip(vj.Err, 500))
+				return o
+			}
 			if lab == "unattributed" || lab == "not-at-a-node-start" {
 				cands := ixJ.at(l.Line, l.Col)
 				where := "?"
